@@ -9,6 +9,7 @@ pub mod c05;
 pub mod c06;
 pub mod c07;
 pub mod c08;
+pub mod c09;
 pub mod c10;
 pub mod c11;
 pub mod c18;
@@ -24,6 +25,7 @@ pub fn by_id(id: &str) -> Option<Arc<dyn Check>> {
         "C06" => Arc::new(c06::C06),
         "C07" => Arc::new(c07::C07),
         "C08" => Arc::new(c08::C08),
+        "C09" => Arc::new(c09::C09),
         "C10" => Arc::new(c10::C10),
         "C11" => Arc::new(c11::C11),
         "C18" => Arc::new(c18::C18),
